@@ -23,50 +23,50 @@ import (
 // use the builders variant).
 
 type corpusSchema struct {
-	ID        string
-	Format    string
-	AM        *amSchema
-	Dir       string // input dir
+	ID         string
+	Format     string
+	AM         *amSchema
+	Dir        string // input dir
 	SchemaPath string
 	SchemaText []byte
-	Validator refValidator
-	Docs      map[string][]amDoc // accepted valid docs per object
-	Faults    map[string][]amDoc
-	Files     genFiles
-	GenErr    error
-	GenPanic  any
-	GenStack  string
-	GoOK      bool
-	PyOK      bool
-	GoTypes   map[string]bool // objects registered in the Go driver
-	Schemas   ast.Schemas     // IR handed to the Go jennies (context.schemas hook)
-	Contexts  map[string]languages.Context
-	Discards  int
+	Validator  refValidator
+	Docs       map[string][]amDoc // accepted valid docs per object
+	Faults     map[string][]amDoc
+	Files      genFiles
+	GenErr     error
+	GenPanic   any
+	GenStack   string
+	GoOK       bool
+	PyOK       bool
+	GoTypes    map[string]bool // objects registered in the Go driver
+	Schemas    ast.Schemas     // IR handed to the Go jennies (context.schemas hook)
+	Contexts   map[string]languages.Context
+	Discards   int
 }
 
 type corpusOpts struct {
-	N         int
-	Formats   []string
-	Profile   string
-	Langs     []string // go, python, jsonschema, openapi
-	Builders  bool
-	Converters bool
-	DocsPerObj int
-	Faults    int
-	GoFlags   map[string]any
+	N            int
+	Formats      []string
+	Profile      string
+	Langs        []string // go, python, jsonschema, openapi
+	Builders     bool
+	Converters   bool
+	DocsPerObj   int
+	Faults       int
+	GoFlags      map[string]any
 	CapsOverride func(c *amCaps)
-	Tag       string
-	NoAimed   bool
+	Tag          string
+	NoAimed      bool
 }
 
 type corpus struct {
-	r       *Run
-	dir     string
-	opts    corpusOpts
-	Schemas []*corpusSchema
-	goBin   string
+	r          *Run
+	dir        string
+	opts       corpusOpts
+	Schemas    []*corpusSchema
+	goBin      string
 	goBuildLog string
-	BrokenGo map[string]string // sid → diagnostic
+	BrokenGo   map[string]string // sid → diagnostic
 }
 
 func newCorpusDir(tag string) string {
